@@ -143,13 +143,16 @@ def h_scalar_field(env):
         same = back == v
     env.check("decode-inverse", same)
     if not env.sym:
-        # witness validation against the reference implementation (google.protobuf)
+        # the spec encoder itself is validated against the reference implementation (google.protobuf) at the witness
         ref = shapes.build_ref(cat)
         r = ref["S%d" % ni]()
         shapes.ref_set_scalar(r, "v", kind, v)
-        env.check("oracle:reference-bytes", r.SerializeToString() == bytes(data))
-        r2 = ref["S%d" % ni].FromString(bytes(data))
-        env.check("oracle:reference-decodes", shapes.ref_scalar_equal(getattr(r2, "v"), v, kind))
+        from .. import sym as _sym
+
+        spec_bytes = spec if isinstance(spec, bytes) and not isinstance(spec, _sym.SymBytes) else _sym.wire(spec)
+        env.check("oracle:spec-bytes==reference-bytes", r.SerializeToString() == spec_bytes)
+        r2 = ref["S%d" % ni].FromString(spec_bytes)
+        env.check("oracle:reference-decodes-spec-bytes", shapes.ref_scalar_equal(getattr(r2, "v"), v, kind))
 
 
 def units(tier):
